@@ -17,6 +17,7 @@ that uses `include_custom_schema_directives=False` and `include_introspection=Fa
 Called from corr/C12.py:run (one call).
 """
 PART = "C12_text"
+PRE_QUOTA = 80   # `build` of the converted document is evaluated on the first PRE_QUOTA printed schemas (~30 ms each)
 
 SHAPE_SDL = """
 directive @tag(n: Int, m: String) on FIELD
@@ -254,6 +255,7 @@ def run(ctx, histories, wire_schema):
     from py_gql.lang import parse
     reqs, meta = [], []
     seen = set()
+    n_want = n_shape_req = 0
     for schemas, hist, outs in histories:
         for (i, o), out in zip(hist, outs):
             if o["include_introspection"] or o["include_custom_schema_directives"] or out[0] != "ok":
@@ -264,8 +266,9 @@ def run(ctx, histories, wire_schema):
                 continue
             seen.add(key)
             ws = wire_schema(schemas[i][2])
+            n_want += bool(o["include_descriptions"])
             reqs.append({"op": "printT", "schema": ws["schema"], "indent": ind, "descriptions": o["include_descriptions"],
-                         "reprs": numeral_reprs(out[1])})
+                         "reprs": numeral_reprs(out[1]), "wantPre": bool(o["include_descriptions"]) and n_want <= PRE_QUOTA})
             meta.append((schemas[i][1], o, out[1]))
     try:
         for src, sch in shape_cases():
@@ -274,7 +277,9 @@ def run(ctx, histories, wire_schema):
                 o = dict(indent=indent, include_descriptions=True, include_introspection=False, include_custom_schema_directives=False)
                 ind = (" " * indent) if isinstance(indent, int) else indent
                 real = sch.to_string(**o)
-                reqs.append({"op": "printT", "schema": ws["schema"], "indent": ind, "descriptions": True, "reprs": numeral_reprs(real)})
+                n_shape_req += 1
+                reqs.append({"op": "printT", "schema": ws["schema"], "indent": ind, "descriptions": True, "reprs": numeral_reprs(real),
+                             "wantPre": n_shape_req % 24 == 1})
                 meta.append((src, o, real))
                 ctx.stat("textT-description-shapes")
                 if ":uniform:" in src:
@@ -335,7 +340,9 @@ def run(ctx, histories, wire_schema):
                 # `text_roundtrip_every_preimage` evaluated with Python's repr(float(.)): when the printer's `f` components are
                 # what Python computes on the printed numerals (`canon`), the document the conversion makes of the PARSED tree
                 # builds what the printer's own document builds
-                if a.get("canon"):
+                if not a.get("preEvaluated"):
+                    pass
+                elif a.get("canon"):
                     n_canon += 1
                     if a.get("preimage"):
                         n_pre += 1
@@ -348,7 +355,7 @@ def run(ctx, histories, wire_schema):
                 else:
                     ctx.stat("textT-printer-f-differs-from-python-repr")
     ctx.extra["nodesc_evaluated"] = "%d of %d schemas printed with include_descriptions=False satisfy printTextWF once stripped" % (n_off_wf, n_off)
-    ctx.extra["every_preimage_evaluated"] = ("%d of %d printTextWF schemas have the printer's f = repr(float(v)) on every printed default "
+    ctx.extra["every_preimage_evaluated"] = ("%d of the printTextWF schemas it was evaluated on (of %d printTextWF schemas) have the printer's f = repr(float(v)) on every printed default "
                                              "(CanonDoc); astToDoc of the parsed tree builds the same schema in %d of them (%d with numerals)"
                                              % (n_canon, n_wf, n_pre, n_num))
     ctx.extra["printTextWF_satisfied"] = ("%d of %d printed schemas (descriptions on, no custom directives); of these %d of %d in "
